@@ -32,7 +32,7 @@ ANCHORS = [
     "raggedshape.py::RaggedView2._calculate_lengths",
     "raggedshape.py::build_indices",
 ]
-RECVS = ["fresh", "lazyrows", "lazycols+2", "lazycols-1", "lazychain", "ufunc", "astype", "deepcopy", "pickle", "copy-of-lazy", "readonly"]
+RECVS = ["fresh", "lazyrows", "lazycols+2", "lazycols-1", "lazychain", "ufunc", "astype", "deepcopy", "pickle", "copy-of-lazy", "readonly", "saveload", "concat"]
 FLOOR_TAGS = ["recv:" + r_ for r_ in RECVS] + ["mask-as-list", "r:int", "r:slice+1", "r:slice+k", "r:slice-", "r:list", "r:array", "r:mask", "r:ell",
               "c:none", "c:int+", "c:int-", "c:slice+1", "c:slice+k", "c:slice-",
               "must-refuse", "sel-has-empty-row", "e-first", "e-last", "e-mid", "e-consec", "allempty", "norows"]
@@ -71,6 +71,15 @@ def build_receiver(recv, flat, lens):
         import copy
         lazy, parent = build_receiver("lazycols+2", flat, lens)
         return copy.deepcopy(lazy), None
+    if recv == "saveload":          # written to disk and read back
+        import tempfile, os
+        with tempfile.TemporaryDirectory(prefix="rtmon-recv-") as d:
+            RA(flat.copy(), list(lens)).save(os.path.join(d, "x.npz"))
+            return RA.load(os.path.join(d, "x.npz")), None
+    if recv == "concat":            # the result of joining two arrays row-wise
+        k = len(lens) // 2
+        off = int(sum(lens[:k]))
+        return np.concatenate([RA(flat[:off].copy(), list(lens[:k])), RA(flat[off:].copy(), list(lens[k:]))]), None
     if recv == "readonly":          # the flat buffer handed to the constructor is not writable (reads must not need to write)
         buf = flat.copy()
         buf.setflags(write=False)
